@@ -19,7 +19,7 @@ META = {
               'anchor/width has, on every inactive axis, width == 1 exactly and anchor < 0 < anchor + width, and on every active axis the caller\'s values; the two entry points agree',
         'R2': 'start cell == box: the boundary constructor yields six planes (+-e_c through A_c resp. A_c + W_c) with inward normals; the eight initial vertices take one plane per axis, '
               'cover the eight corners once each, and their plane triples all have the same orientation',
-        'R3': 'periodic start box: on active axes the walls lie at or beyond A - W/2 and A + 3W/2 for every anchor A (the Wigner-Seitz bound of any periodic cell); inactive axes are untouched',
+        'R3': 'periodic start box: on active axes the walls lie STRICTLY beyond A - W/2 and A + 3W/2 for every anchor A (the Wigner-Seitz bound of any periodic cell; strict because a generator on a periodic wall reaches the bound and a start wall there is never replaced by the face towards its own image); inactive axes are untouched',
         'R5': 'translation conditioning of the measure kernels: in signed_volume_tet, signed_area_tri, in_sphere_test, intersect_planes, the plane projections and the collect methods of '
               'the built-in integrals no multiplicative operation combines operands whose joint degree in a common translation of all input points exceeds 1 (absolute coordinates are '
               'never multiplied with one another; differences are formed first), so rounding errors scale with the cell size and not with the distance of the box from the origin',
@@ -211,8 +211,11 @@ def r3(ctx, F, rule, sfx):
                     margin = (A[c] - Wd[c] / 2) - off
                 else:
                     margin = off - (A[c] + Wd[c] * Fraction(3, 2))
-                k_ = positive_multiple_of_width(margin, c, allow_zero=True)
-                ctx.check(rule, inst, k_ is not None, 'wall at %r (margin to the Wigner-Seitz bound: %r)' % (off, margin), 'at or beyond A %s for every anchor' % ('- W/2' if side == 'lo' else '+ 3W/2'), w, key_extra='margin')
+                # strictly beyond: a generator may lie ON a periodic wall (closed box); its cell then reaches A - W/2 (resp. A + 3W/2) exactly, the
+                # bisector with its own image coincides with a start wall placed there, every vertex on it is a tie whose exact test sees the image
+                # twice (as neighbour and as the wall's mirror point) and answers 0, so the wall is never replaced by the image's face
+                k_ = positive_multiple_of_width(margin, c, allow_zero=False)
+                ctx.check(rule, inst, k_ is not None, 'wall at %r (margin to the Wigner-Seitz bound: %r)' % (off, margin), 'strictly beyond A %s for every anchor' % ('- W/2' if side == 'lo' else '+ 3W/2'), w, key_extra='margin')
             else:
                 want = A[c] if side == 'lo' else A[c] + Wd[c]
                 ctx.check(rule, inst, off == want, 'wall at %r' % off, 'untouched: %r' % want, w, key_extra='inactive')
